@@ -20,7 +20,7 @@ Nothing is skipped or guessed.
 
 Supported subset (anything else fails)
   statements   docstring; `name = e`, `name: T = e`, `name op= e`, `self._x = e` (op in + - *);
-               `if / elif / else`; `raise <Exc>(f"..")`; `return e`; `pass`; `break`;
+               `if / elif / else`; `raise <Exc>(f"..")`; `return e`; `pass`; `break`; `continue`;
                `try: .. except <Exc>: ..` with one handler, both blocks returning on every path, in a
                method that neither consumes stream output nor touches mutable attributes;
                `logger.<m>("text")` (no effect); the calls `super().__init__(..)`,
@@ -33,7 +33,10 @@ Supported subset (anything else fails)
                isinf/factorial/comb`, `erf_inv(e)`, `beta(a, b)` (pydsol.core.utils);
                `self._stream.next_float()`, `self._stream.next_int(a, b)`,
                `self.m(..)` / `super().m(..)` of a translated method, `DistGamma(stream, a, b)`,
-               `<inner gamma>.draw()`
+               `<inner gamma>.draw()`; conditional expressions `a if c else b`; string literals /
+               f-strings only as arguments handed on to a helper's exception message;
+               calls of PRIVATE HELPERS -- any other method of the class chain (also a @staticmethod) and
+               any module-level function: the helper's body is translated at the call site
 Meaning given to them
   * evaluation order is Python's: every operation that can raise or that consumes stream output
     (`/`, `**`, every math.* function, erf_inv, beta, next_float, calls) becomes a monadic bind in
@@ -58,6 +61,18 @@ Meaning given to them
         stream does); a test that is statically true on entry (`while True`, `s = 1.0; while
         s >= 1.0 ..`) gives the do-while form;  `break` leaves the loop, `return` the method;
       the statements after the loop are part of the recursive definition;
+  * the shape of the control flow does not matter: statements are translated in continuation-passing style, so
+    a guard clause with an early return and the nested if / else give the same text, `elif` after a returning
+    branch equals `if`, `continue` is the jump to the next iteration (in the do-while form: to the test), a
+    conditional expression is the if / else on its test (only the chosen operand is evaluated); a local bound to
+    a pure expression is a `let`;
+  * a private helper is inlined: its parameters are bound to the argument VALUES (arguments are evaluated left to
+    right before the body, as in Python), every `return e` hands e to the rest of the caller, falling off the
+    end hands None; isinstance facts established inside the helper about an argument hold after the call.
+    Only the methods named in KEPT become definitions of their own (coq/Dist/GenAgree.v has a theorem about
+    each).  Refused (file:line): a helper that is recursive, has *args / **kwargs / keyword-only parameters, a
+    decorator other than @staticmethod, a non-literal default that is needed, a module-level helper that uses
+    `self`; helper nesting deeper than 12;
   * `self.m()` / `super().m()` are resolved statically along the single-inheritance chain of the
     concrete class; a base-class method is reused for a subclass only if every method it calls
     resolves to the same definition for both.
